@@ -777,6 +777,13 @@ func (z *Decimal) FMA(x, y, u *Decimal) *Decimal {
 	}
 
 	if u.form == zero {
+		if x.form == zero && y.form != inf || y.form == zero && x.form != inf {
+			// ±0 * y + ±0 and x * ±0 + ±0: the product is an exact zero, the
+			// result is the sum of two zeros (IEEE 754-2008 section 6.3)
+			var p Decimal
+			p.neg = x.neg != y.neg
+			return z.Add(&p, u)
+		}
 		return z.Mul(x, y)
 	}
 	// 0 < |u| <= Inf
